@@ -25,8 +25,8 @@
     input.  [OEndBlockFull h now groups ests f pf] is the whole EndBlocker (createBatch, tally of
     the observed claims [groups] per active chain, the elected estimates [ests], the timeout
     sweep) under an error oracle [f] and a PANIC oracle [pf]. *)
-From Coq Require Import List ZArith Bool String.
-From Paloma Require Import Skyway.Bridge Skyway.BridgeProofs Skyway.BridgeExamples.
+From Coq Require Import List ZArith Bool String Sorted.
+From Paloma Require Import Skyway.Bridge Skyway.BridgeProofs Skyway.BridgeOrder Skyway.BridgeExamples.
 From Paloma Require Gen.C01.
 Import ListNotations.
 Open Scope Z_scope.
@@ -219,6 +219,49 @@ Theorem code_shape_matches_model :
   /\ Gen.C01.batch_size = 100 /\ Gen.C01.batch_period = 50 /\ Gen.C01.batch_timeout_secs = 600.
 Proof. exact code_shape_proof. Qed.
 Print Assumptions code_shape_matches_model.
+
+(** Round 2 (b): batches at the cap and the fill order.  A successful build that finds something
+    opens ONE batch with the first [max] transfers of that (chain, contract) in pool order
+    ([matches c k]), with the next batch nonce, and leaves the other transfers in the pool; *)
+Theorem build_takes_first_in_pool_order : forall s c k max now f s',
+  step s (OBuild c k max now f) = (s', Ok) ->
+  let picked := firstn (Z.to_nat max) (filter (matches c k) (pool s)) in
+  0 < max /\
+  (picked = [] -> s' = s) /\
+  (picked <> [] ->
+     batches s' = batch_insert (mkB (last_batch s + 1) c k (now + Gen.C01.batch_timeout_secs) 0 picked) (batches s) /\
+     pool s' = snd (pick c k (Z.to_nat max) (pool s)) /\
+     filter (matches c k) (pool s') = skipn (Z.to_nat max) (filter (matches c k) (pool s)) /\
+     last_batch s' = last_batch s + 1).
+Proof. exact build_takes_first_in_pool_order_proof. Qed.
+Print Assumptions build_takes_first_in_pool_order.
+
+(** after every history (no hypothesis on table or governance) the pool is in descending
+    (contract, amount, id) order — [tx_key_lt a b = false]: a's key is not below b's; *)
+Theorem pool_in_fee_order : forall tb b0 sup0 ops,
+  StronglySorted (fun a b => tx_key_lt a b = false) (pool (run (init tb b0 sup0) ops)).
+Proof. exact pool_in_fee_order_proof. Qed.
+Print Assumptions pool_in_fee_order.
+
+(** hence a batch holds the highest-keyed transfers of its token: nothing it took is keyed below
+    a matching transfer it left in the pool; *)
+Theorem build_takes_the_highest : forall tb b0 sup0 ops c k max now f s' t t',
+  let s := run (init tb b0 sup0) ops in
+  step s (OBuild c k max now f) = (s', Ok) ->
+  In t (firstn (Z.to_nat max) (filter (matches c k) (pool s))) ->
+  In t' (pool s') -> matches c k t' = true ->
+  tx_key_lt t t' = false.
+Proof. exact build_takes_the_highest_proof. Qed.
+Print Assumptions build_takes_the_highest.
+
+(** and no open batch is ever empty or holds more than OutgoingTxBatchSize transfers, whatever the
+    end-blocker does ([build_capped]: direct builds of the history ask for at most the cap; the
+    end-blocker's builds ask for exactly the cap). *)
+Theorem open_batches_capped : forall tb b0 sup0 ops,
+  Forall build_capped ops ->
+  Forall (fun b => (1 <= List.length (b_txs b) <= Z.to_nat Gen.C01.batch_size)%nat) (batches (run (init tb b0 sup0) ops)).
+Proof. exact open_batches_capped_proof. Qed.
+Print Assumptions open_batches_capped.
 
 (** Round 2 facts re-read from the source on every check: which cached-context functions cannot
     commit while a panic unwinds (either the tree before the fix: only processAttestation — the
